@@ -1,7 +1,7 @@
 (* IPv4 header codec: sim/elvis-core/src/protocols/ipv4/ipv4_parsing.rs.
    Line numbers refer to that file at /repo commit c999f3a6 (both repairs applied).
 
-   Parameters of the model functions
+   Switches of the model functions
      ck   : cargo feature `compute_checksum` (false = default build)
      fck  : receive-side checksum repair  (commit c999f3a6, .cache/codecip/fix-cksum.patch)
      ftl  : total-length repair           (commit 590cc7ad, .cache/codecip/fix-ipv4-totlen.patch)
